@@ -143,26 +143,25 @@ func c11r1(c *core.Ctx) {
 		})
 		type st struct{ zeroed bool }
 		// paths through the function: each column loop contributes "zeroed" iff all its body paths zero the column at lastVar
-		loopZeroes := func(rs *ast.RangeStmt) (bool, int) {
-			colVar := ""
-			ast.Inspect(rs.Body, func(n ast.Node) bool {
-				if as, ok := n.(*ast.AssignStmt); ok && len(as.Lhs) == 1 && len(as.Rhs) == 1 && colVar == "" {
-					if u, ok := ast.Unparen(as.Rhs[0]).(*ast.UnaryExpr); ok && u.Op == token.AND {
-						if ix, ok := ast.Unparen(u.X).(*ast.IndexExpr); ok && fieldKeyOf(m, ix.X) == "table.columns" {
-							colVar = m.ExprString(as.Lhs[0])
-						}
-					}
-				}
-				return true
-			})
-			paths := enumeratePaths(m, rs.Body.List, func(s ast.Stmt, cur st) st {
+		// a receiver that is an element of the table's column list (directly, by address, or through a naming local)
+		isColumn := func(rv ast.Expr) bool {
+			e := ast.Unparen(m.Inline(ast.Unparen(rv)))
+			if u, ok := e.(*ast.UnaryExpr); ok && u.Op == token.AND {
+				e = ast.Unparen(u.X)
+			}
+			ix, ok := e.(*ast.IndexExpr)
+			return ok && fieldKeyOf(m, ix.X) == "table.columns"
+		}
+		loopZeroes := func(body *ast.BlockStmt) (bool, int) {
+			paths := enumeratePaths(m, body.List, func(s ast.Stmt, cur st) st {
 				ast.Inspect(s, func(n ast.Node) bool {
 					if call, ok := n.(*ast.CallExpr); ok {
-						if rv, ok := callTo(m, call, zero); ok && rv != nil {
-							recv := m.ExprString(rv)
-							okRecv := recv == colVar || strings.HasPrefix(recv, "t.columns[")
-							if okRecv && len(call.Args) >= 1 && m.ExprString(call.Args[0]) == lastVar {
-								cur.zeroed = true
+						if rv, ok := callTo(m, call, zero); ok && rv != nil && isColumn(rv) {
+							// the vacated row is one of the arguments (its position is not assumed)
+							for _, a := range call.Args {
+								if m.ExprString(a) == lastVar {
+									cur.zeroed = true
+								}
 							}
 						}
 					}
@@ -183,8 +182,8 @@ func c11r1(c *core.Ctx) {
 		var walk func(list []ast.Stmt) []fs
 		walk = func(list []ast.Stmt) []fs {
 			return enumeratePaths(m, list, func(s ast.Stmt, cur fs) fs {
-				if rs, ok := s.(*ast.RangeStmt); ok && fieldKeyOf(m, rs.X) == "table.columns" {
-					z, n := loopZeroes(rs)
+				if body, ok := loopOverAll(m, s, "table.columns"); ok {
+					z, n := loopZeroes(body)
 					totalPaths += n
 					if z {
 						cur.zeroed = true
@@ -353,7 +352,31 @@ func c11r1(c *core.Ctx) {
 		okLoop := false
 		// a loop over exactly `len` iterations (range over the count, or a classic loop from 0 below it) whose body
 		// has no branching: every requested row is zeroed
-		lenPar2 := f.Sig.Params().At(1)
+		// the count parameter: the one that receives the row count at the reset role's call (positions are not assumed)
+		var lenPar2 *types.Var
+		if colReset != nil {
+			var resetLen *types.Var
+			for i := 0; i < colReset.Sig.Params().Len(); i++ {
+				if isInt(colReset.Sig.Params().At(i).Type()) && resetLen == nil {
+					resetLen = colReset.Sig.Params().At(i)
+				}
+			}
+			core.InspectNoLits(colReset.Body, func(n ast.Node) bool {
+				if call, ok := n.(*ast.CallExpr); ok {
+					if _, isC := callTo(m, call, zeroRange); isC {
+						for j, a := range call.Args {
+							if id := identOf(m.StripConv(m.Inline(m.StripConv(a)))); id != nil && resetLen != nil && m.Info.ObjectOf(id) == types.Object(resetLen) && j < f.Sig.Params().Len() {
+								lenPar2 = f.Sig.Params().At(j)
+							}
+						}
+					}
+				}
+				return true
+			})
+		}
+		if lenPar2 == nil && f.Sig.Params().Len() > 1 {
+			lenPar2 = f.Sig.Params().At(1)
+		}
 		unconditional := func(body *ast.BlockStmt) bool {
 			cond := false
 			ast.Inspect(body, func(x ast.Node) bool {
@@ -668,9 +691,19 @@ func c11r3(c *core.Ctx) {
 	// struct recursion covers all fields: loop bound NumField() without skipping
 	okFields := false
 	core.InspectNoLits(fn.Body, func(n ast.Node) bool {
-		if rs, ok := n.(*ast.RangeStmt); ok && strings.HasSuffix(m.ExprString(rs.X), ".NumField()") {
+		bound, body, isLoop := countLoop(m, n)
+		if !isLoop {
+			return true
+		}
+		overFields := false
+		for _, e := range exprChain(m, fn, bound, 0) {
+			if strings.HasSuffix(m.RawString(e), ".NumField()") {
+				overFields = true
+			}
+		}
+		if overFields {
 			skip := false
-			ast.Inspect(rs.Body, func(x ast.Node) bool {
+			ast.Inspect(body, func(x ast.Node) bool {
 				if br, ok := x.(*ast.BranchStmt); ok && br.Tok == token.CONTINUE {
 					skip = true
 				}
